@@ -335,3 +335,7 @@ pub mod benches {
         group.finish();
     }
 }
+
+#[cfg(kani)]
+#[path = "/verif/units/kani/leaf_node.rs"]
+mod verif_kani;
